@@ -22,15 +22,16 @@ TraceInit == /\ s \in 1..Len(Sessions) /\ l = 1 /\ verdict = <<>>
              /\ kind = "trace" /\ seqs = <<>> /\ vals = <<>> /\ opt = <<>> /\ pos = 1 /\ counts = <<>> /\ regex = <<>> /\ out = <<>> /\ step = "done"
 
 TrColors == /\ HasEvent("Colors") /\ UNCHANGED vars
-            /\ Consume(Named([
+            /\ \E cnt \in { CountsOfLabels(E.labels) } :
+               Consume(Named([
                  raised |-> E.raised,
                  length_differs |-> ~E.raised /\ Len(E.cols) # Len(E.labels),
                  equal_labels_different_colours |-> ~E.raised /\ Len(E.cols) = Len(E.labels) /\
                       \E i, j \in 1..Len(E.labels) : E.labels[i] = E.labels[j] /\ E.cols[i] # E.cols[j],
                  rare_label_not_black |-> ~E.raised /\ Len(E.cols) = Len(E.labels) /\
-                      \E i \in 1..Len(E.labels) : E.minc > 0 /\ CountOf(E.labels, E.labels[i]) < E.minc /\ E.cols[i] # 0,
-                 distinct_labels_same_colour |-> ~E.raised /\ Len(E.cols) = Len(E.labels) /\ E.hls /\ ~ColoursOK(E.labels, E.minc, E.cols, TRUE)
-                      /\ ColoursOK(E.labels, E.minc, E.cols, FALSE) ]))
+                      \E i \in 1..Len(E.labels) : E.minc > 0 /\ cnt[E.labels[i]] < E.minc /\ E.cols[i] # 0,
+                 distinct_labels_same_colour |-> ~E.raised /\ Len(E.cols) = Len(E.labels) /\ E.hls /\ ~ColoursOKc(E.labels, E.minc, E.cols, TRUE, cnt)
+                      /\ ColoursOKc(E.labels, E.minc, E.cols, FALSE, cnt) ]))
 
 LevMat(x) == [i \in 1..Len(x) |-> [j \in 1..Len(x) |-> IF i = j THEN 0 ELSE Lev(x[i], x[j])]]
 CondVec(da, db) == FoldLeft(LAMBDA v, i : v \o [k \in 1..(Len(da) - i) |-> da[i][i + k] + db[i][i + k]], <<>>, [i \in 1..(Len(da) - 1) |-> i])
